@@ -342,7 +342,7 @@ def header_items(draw, section, max_items=4, inf=False, collide=True):
 
 CELL_TEXT = st.one_of(
     st.sampled_from(["", "a", "b c", "SAND", "LIMESTONE", "1.5", "nan", "x,y", "q\"uote", "it's", " lead", "trail ",
-                     "semi;colon", "é深", "-", "12-MAY", "=1+2", "tab\there"]),
+                     "semi;colon", "é深", "-", "12-MAY", "=1+2", "tab\there", "5'6\"", "LOST INTERVAL   ", "'", "\""]),
     st.text(S.TEXT_CHARS + " ", min_size=0, max_size=10))
 
 
